@@ -880,6 +880,13 @@ func escalationDevice(d *Desc, st *escState) *simDev {
 	return sd
 }
 
+func (e *Esc) escalatePrompt() string {
+	if e.PwPat == "" {
+		return pwPat
+	}
+	return e.PwPat
+}
+
 type escState struct {
 	enables, asks int
 	cmdMode       string
@@ -889,7 +896,7 @@ func escLevels(e *Esc) map[string]*network.PrivilegeLevel {
 	levels := map[string]*network.PrivilegeLevel{
 		"exec": {Name: "exec", Pattern: execPat},
 		"privilege-exec": {Name: "privilege-exec", Pattern: privPat, PreviousPriv: "exec", Deescalate: "disable", Escalate: "enable",
-			EscalateAuth: true, EscalatePrompt: pwPat},
+			EscalateAuth: true, EscalatePrompt: e.escalatePrompt()},
 	}
 	if e.Levels == 3 {
 		levels["configuration"] = &network.PrivilegeLevel{Name: "configuration", Pattern: confPat, NotContains: []string{"tcl)"},
@@ -962,7 +969,11 @@ func RunEscalation(d Desc) mon.Result {
 	bound := 2*e.Levels + 1
 
 	// the secret is only ever received while the device reads a password
-	pwRe := regexp.MustCompile(pwPat)
+	pwRe := regexp.MustCompile(e.escalatePrompt())
+	if e.PwPat != "" && e.PwPat != pwPat {
+		r.tag(fmt.Sprintf("escalate-prompt=bare-text %q", e.PwPat))
+		r.obs["escalations_with_bare_text_escalate_prompt"]++
+	}
 	rk := strings.Join(uniq(e.Rounds), ",")
 	secretsHidden := 0
 	for _, l := range lines {
